@@ -40,7 +40,7 @@ def M(name, recv, *a, **kw):
 
 
 def F(name, *a, **kw):
-    return yq.ROOT(name, ENG, use_convention=True)(*a, **kw)
+    return yq.ROOT(name, ENG, use_convention=not name.startswith('#'))(*a, **kw)
 
 
 def fin(x):
@@ -939,9 +939,9 @@ def r_present(e, key):
 case('dict.keyword', '#operator_./dict_keyword_access', lambda e: e.v,
      text='$ma.a', uses='v i', pres=('tuple',))
 case('dict.indexer', '#indexer/dict_indexer', lambda e: lookup(*m_model(e), e.k),
-     text='$m[$k]', uses='c d k', dom=lambda e: m_dom(e) and has(e.t, e.k), nones=False, pres=('tuple',))
+     api=lambda e, P, name: F(name, e.m(), e.k), text='$m[$k]', uses='c d k', dom=lambda e: m_dom(e) and has(e.t, e.k), nones=False, pres=('tuple',))
 case('dict.indexer.default', '#indexer/dict_indexer_with_default', lambda e: lookup(*m_model(e), e.k, e.v),
-     text='$m[$k, $v]', uses='c d k v', dom=m_dom, nones=False, pres=('tuple',))
+     api=lambda e, P, name: F(name, e.m(), e.k, e.v), text='$m[$k, $v]', uses='c d k v', dom=m_dom, nones=False, pres=('tuple',))
 case('get', 'get/dict_get', lambda e: lookup(*m_model(e), e.k, None),
      api=lambda e, P, name: M(name, e.m(), e.k), text='$m.get($k)', uses='c d k', dom=m_dom, nones=False,
      pres=('tuple',))
@@ -969,7 +969,8 @@ case('items', 'items/dict_items',
      lambda e: Weak(lambda got: same_multiset(got, [[a, b] for a, b in zip(*m_model(e))]), 'the pairs, any order'),
      api=lambda e, P, name: M('toList', M(name, e.m())), text='$m.items().toList()', uses='c d', dom=m_dom,
      nones=False, pres=('tuple',))
-case('in', '#operator_in/in_', lambda e: has(e.t, e.v), text='$v in $c', uses='c v')
+case('in', '#operator_in/in_', lambda e: has(e.t, e.v), api=lambda e, P, name: F(name, e.v, P(e.t)),
+     text='$v in $c', uses='c v')
 case('contains', 'contains/contains', lambda e: has(e.t, e.v),
      api=lambda e, P, name: M(name, P(e.t), e.v), text='$c.contains($v)', uses='c v')
 case('containsKey', 'containsKey/contains_key', lambda e: has(m_model(e)[0], e.k),
@@ -978,16 +979,20 @@ case('containsKey', 'containsKey/contains_key', lambda e: has(m_model(e)[0], e.k
 case('containsValue', 'containsValue/contains_value', lambda e: has(m_model(e)[1], e.k),
      api=lambda e, P, name: M(name, e.m(), e.k), text='$m.containsValue($k)', uses='c d k', dom=m_dom, nones=False,
      pres=('tuple',))
-case('plus.lists', '#operator_+/combine_lists', lambda e: T(e) + U(e), text='$c + $d', uses='c d')
-case('plus.sets', '#operator_+/combine_lists', lambda e: set(T(e) + U(e)), text='$s + $s2', uses='c d',
+case('plus.lists', '#operator_+/combine_lists', lambda e: T(e) + U(e), api=lambda e, P, name: F(name, P(e.t), P(e.u)),
+     text='$c + $d', uses='c d')
+case('plus.sets', '#operator_+/combine_lists', lambda e: set(T(e) + U(e)), api=lambda e, P, name: F(name, e.s(), e.s2()),
+     text='$s + $s2', uses='c d',
      pres=('tuple',))
 case('times.list.int', '#operator_*/list_by_int', lambda e: [x for _ in range(e.i) for x in e.t],
-     text='$c * $i', uses='c i', dom=lambda e: 0 <= e.i <= 3, pres=('tuple',))
+     api=lambda e, P, name: F(name, e.t, e.i), text='$c * $i', uses='c i', dom=lambda e: 0 <= e.i <= 3,
+     pres=('tuple',))
 case('times.int.list', '#operator_*/int_by_list', lambda e: [x for _ in range(e.i) for x in e.t],
-     text='$i * $c', uses='c i', dom=lambda e: 0 <= e.i <= 3, pres=('tuple',))
+     api=lambda e, P, name: F(name, e.i, e.t), text='$i * $c', uses='c i', dom=lambda e: 0 <= e.i <= 3,
+     pres=('tuple',))
 case('plus.dicts', '#operator_+/combine_dicts',
      lambda e: as_dict(*dict_of(list(e.pairs()) + [(e.i, e.j), (e.k, e.r)])),
-     text='$m + $m2', uses='c d i j k r', dom=lambda e: m_dom(e) and 0 <= e.i <= 1, nones=False, pres=('tuple',))
+     api=lambda e, P, name: F(name, e.m(), e.m2()), text='$m + $m2', uses='c d i j k r', dom=lambda e: m_dom(e) and 0 <= e.i <= 1, nones=False, pres=('tuple',))
 case('len.dict', 'len/dict_len', lambda e: len(m_model(e)[0]),
      api=lambda e, P, name: M(name, e.m()), text='$m.len()', uses='c d', dom=m_dom, nones=False, pres=('tuple',))
 case('len.set', 'len/set_len', lambda e: len(uniq(e.t)),
@@ -1046,7 +1051,7 @@ for _op, _pay, _f in (('<', 'set_lt', lambda a, b: subset(a, b) and len(uniq(a))
                       ('>', 'set_gt', lambda a, b: subset(b, a) and len(uniq(a)) > len(uniq(b))),
                       ('>=', 'set_gte', lambda a, b: subset(b, a))):
     case('set' + _op, '#operator_%s/%s' % (_op, _pay), (lambda f: lambda e: f(e.t, e.u))(_f),
-         text='$s %s $s2' % _op, uses='c d', pres=('tuple',))
+         api=lambda e, P, name: F(name, e.s(), e.s2()), text='$s %s $s2' % _op, uses='c d', pres=('tuple',))
 case('add', 'add/set_add', lambda e: set(T(e) + [e.v, e.k]),
      api=lambda e, P, name: M(name, e.s(), e.v, e.k), text='$s.add($v, $k)', uses='c v k', pres=('tuple',))
 case('remove', 'remove/set_remove', lambda e: set([x for x in e.t if not has([e.v, e.k], x)]),
@@ -1058,12 +1063,12 @@ case('intersect', 'intersect/intersect', lambda e: set([x for x in e.t if has(e.
 case('difference', 'difference/difference', lambda e: set([x for x in e.t if not has(e.u, x)]),
      api=lambda e, P, name: M(name, e.s(), e.s2()), text='$s.difference($s2)', uses='c d', pres=('tuple',))
 case('minus.sets', '#operator_-/difference', lambda e: set([x for x in e.t if not has(e.u, x)]),
-     text='$s - $s2', uses='c d', pres=('tuple',))
+     api=lambda e, P, name: F(name, e.s(), e.s2()), text='$s - $s2', uses='c d', pres=('tuple',))
 case('symmetricDifference', 'symmetricDifference/symmetric_difference',
      lambda e: set([x for x in e.t if not has(e.u, x)] + [x for x in e.u if not has(e.t, x)]),
      api=lambda e, P, name: M(name, e.s(), e.s2()), text='$s.symmetricDifference($s2)', uses='c d', pres=('tuple',))
 case('list.indexer', '#indexer/list_indexer', lambda e: e.t[e.i],
-     text='$c[$i]', uses='c i', dom=lambda e: 0 <= e.i < e.n, pres=('tuple',))
+     api=lambda e, P, name: F(name, e.t, e.i), text='$c[$i]', uses='c i', dom=lambda e: 0 <= e.i < e.n, pres=('tuple',))
 
 # --- system: unpack / with (anchors of the property) -----------------------------------------------------------
 
